@@ -122,6 +122,8 @@ def cases(tier, seed, i, n):
             for k in range(len(names)):
                 for mech in MECHS:
                     yield dict(kind='sim', sc=name, k=k, mech=mech)
+                    if k >= 1 and mech in MECHS[:4] and (k + len(name)) % 3 == 0:
+                        yield dict(kind='sim', sc=name, k=k, mech=mech, early='session-close-before-the-first-event')
         yield gen.mark('every event index of every scenario x 4 abandonment mechanisms (simulated transport)')
         for r, mech in enumerate(MECHS[:4]):
             if tier == 'thorough' or r % 2 == 0:
@@ -141,6 +143,10 @@ def cases(tier, seed, i, n):
         for stop in ('connected', 'ready', 'poll'):
             for mech in ('break', 'close'):
                 yield dict(kind='close-race-pinned', stop=stop, mech=mech)
+        # a sender of ANOTHER WebSocket of the process is stalled for ever inside a send (its peer stopped reading) while
+        # this loop is abandoned: nothing this connection needs in order to let go of its socket is held over there
+        for stop in ('connected', 'ready', 'poll', 'text'):
+            yield dict(kind='stalled-other', stop=stop)
         for r in range(4 if tier == 'quick' else 60):
             yield dict(kind='close-race', rseed=seed * 977 + r, count=25, prob=(0.1, 0.3, 0.6, 0.9)[r % 4], stop=('connected', 'ready')[r % 2])
         reals = [('tls-quiet', 3), ('tls-quiet', 5), ('tls-quiet', 2),
@@ -345,6 +351,69 @@ class _FakeRun(object):
         self.calls = []
 
 
+def run_stalled_other(case, acc):
+    from .. import sched, schedlock
+    F_ = refws.enc_frame
+    with sched.InstalledShim():
+        w = H.World(lambda i: simnet.ScriptServer([('hs', {}), ('raw', F_(1, b'hello %d' % i))]), split_send=True, horizon=30.0, stop_at=30.0)
+        with simnet.Installed(w):
+            other = env.WebSocket('ws://other.example/', proxies={})
+            go = other.connect(session_class=simnet.SimSession, ping_rate=0, poll=5.0)
+            for ev in go:
+                if ev.name == 'poll':
+                    break
+            ws = env.WebSocket('ws://example.com/', proxies={})
+            g = ws.connect(session_class=simnet.SimSession, ping_rate=0, poll=5.0)
+            s = sched.Scheduler(files=sched.WRITE_PATH_FILES)
+            never = schedlock.SchedLock(False)
+            never.owner = 'never-released'
+            st = {'a_in_write': False, 'seen': [], 'done': False}
+
+            def hook(tag):
+                if s.current is not None and s.current.name == 'A' and not st['a_in_write']:
+                    st['a_in_write'] = True
+                    s.current.blocked_on = never
+                    s.switch_away()
+                else:
+                    s.yield_point(tag)
+            w.yield_hook = hook
+
+            def thread_a():
+                other.send_binary(b's' * 300)
+
+            def consumer():
+                try:
+                    for ev in g:
+                        st['seen'].append(ev.name)
+                        if ev.name == case['stop'] or len(st['seen']) > 12:
+                            break
+                except (StopIteration, simnet.Quiesced):
+                    st['seen'].append('<end>')
+                g.close()
+                st['done'] = True
+            s.spawn('A', thread_a)
+            s.spawn('consumer', consumer)
+            s.run(first=0, timeout=20.0)
+            w.yield_hook = None
+    acc.count2('oracle', 'abandoned_while_another_websocket_is_stalled')
+    mine = [sk for sk in w.socks if getattr(sk, 'conn', None) is not None and sk.conn.index == 1] or w.socks[1:2]
+    detail = dict(a_reached_write=st['a_in_write'], seen=st['seen'], done=st['done'], deadlock=s.deadlock, hung=s.hung,
+                  open_sockets=[sk.sid for sk in mine if not sk.closed])
+    if s.hung:
+        acc.inconclusive.append('stalled-other: scheduler watchdog %r' % (detail,))
+        return
+    if not st['a_in_write']:
+        acc.inconclusive.append('stalled-other: thread A never reached the socket write %r' % (detail,))
+        return
+    acc.count2('oracle', 'abandon_points_checked')
+    acc.count2('oracle', 'sockets_checked', len(mine))
+    if not st['done'] or detail['open_sockets']:
+        acc.violation('socket-left-open-after-abandon:abandoning-waits-for-a-send-stalled-on-another-websocket',
+                      'C13 abandoned at %s: %s' % (case['stop'], 'the consumer never got back (dead-locked)' if not st['done'] else 'socket still open'), case, detail)
+    else:
+        acc.cls('stalled-other/%s' % case['stop'])
+
+
 def run_close_race_pinned(case, acc):
     """the same race with the other thread's session.close() pinned: it has looked at the session (no socket yet) when
     the consumer connects and reaches `stop`; then it finishes; then the consumer stops iterating"""
@@ -440,6 +509,8 @@ def run_case(case, acc):
         return run_close_race(case, acc)
     if case.get('kind') == 'close-race-pinned':
         return run_close_race_pinned(case, acc)
+    if case.get('kind') == 'stalled-other':
+        return run_stalled_other(case, acc)
     if case['kind'] == 'real':
         return run_real(case, acc)
     if case['kind'] == 'busy-writer':
@@ -452,7 +523,15 @@ def run_case(case, acc):
     with simnet.Installed(w):
         ws = env.WebSocket(url, **wskw)
         try:
-            seen = abandon(lambda: ws.connect(session_class=simnet.SimSession, **ckw), ws, k, mech, pol, w)
+            def genf():
+                g_ = ws.connect(session_class=simnet.SimSession, **ckw)
+                if case.get('early') == 'session-close-before-the-first-event':
+                    # a with-block around the WebSocket that ended between connect() and the first iteration, a
+                    # supervisor that closed too early: nothing to close yet - and nothing that must be remembered
+                    ws.session.close()
+                    acc.count2('oracle', 'abandoned_after_an_early_no_op_close')
+                return g_
+            seen = abandon(genf, ws, k, mech, pol, w)
         except (simnet.Quiesced, simnet.BudgetExceeded) as e:
             acc.inconclusive.append('abandon run ended early: %r %r' % (case, e))
             return
